@@ -228,8 +228,22 @@ class xcube:
                     bucket["start"] = start
 
         if self.parallel:
+
+            def fill_one_cube_in_worker(nested_coords):
+                # A BaseException (KeyboardInterrupt, SystemExit...) escaping
+                # a pool worker kills the worker without completing the task,
+                # and pool.map would then wait forever. Hand it back instead.
+                try:
+                    fill_one_cube(nested_coords)
+                except Exception:
+                    raise
+                except BaseException as exc:
+                    return exc
+
             with closing(self.pool_class(self.poolsize)) as pool:
-                pool.map(fill_one_cube, self.product)
+                for exc in pool.map(fill_one_cube_in_worker, self.product):
+                    if exc is not None:
+                        raise exc
         else:
             # The only reason to _not_ multithread this is the extra overhead;
             # for example, if there's only one region anyway, or there are a handful
